@@ -83,6 +83,11 @@ def _parse_function(input_string):
             "Expected to receive exactly one new reference as a model function but instead received"
             "%s in the following string:\n%s" % (len(_new_references), input_string)
         )
+    try:
+        # inspect.getsource cannot find the source of code created by exec: keep it with the function
+        _new_references[0]._kafe2_source_code = input_string
+    except AttributeError:
+        pass
     return _new_references[0]
 
 
